@@ -66,14 +66,21 @@ def hist_run(ctx, cfgs, n, extra=(), shards=2, zero_d=False):
     other = {k: v for k, v in ctx.counters.items() if k.startswith('otherprop:')}
     if other: ctx.extra['violations_of_other_properties_seen_by_this_engine (reported by their own checks)'] = other
 
+def sa_run(ctx, cfgs, n):
+    """histories over multi::static_array (fixed extents: moves move the elements, assignments and swaps need equal extents)"""
+    ctx.build([dict(name='sa_t%d_d%d' % (t, d), src='harness/sa_hist.cpp', cfg='asan', defs=['SA_T=%d' % t, 'SA_D=%d' % d]) for (t, d) in cfgs])
+    for (t, d) in cfgs: ctx.run_sharded('sa_t%d_d%d' % (t, d), n, args=['--prop', ctx.pid, '--maxext', 3, '--steps', T(ctx, 12, 30)], shards=2)
+
 def c04(ctx, spec):
     hist_run(ctx, [(1, 1, 0), (1, 2, 0), (1, 3, 0), (1, 4, 0), (0, 2, 0), (0, 3, 0), (2, 1, 0), (2, 2, 0)], T(ctx, 10000, 200000), zero_d=True)
+    sa_run(ctx, [(1, 1), (1, 2), (2, 2), (1, 3)], T(ctx, 4000, 80000))
     # the same histories over three unequal instances of a stateful, non-propagating allocator: moves between unequal allocators move the elements and still leave the source empty
     for (t, d, tr) in [(1, 2, 0), (2, 1, 0)]: ctx.run_sharded('hist_t%d_d%d_tr%d' % (t, d, tr), T(ctx, 5000, 100000), args=['--prop', ctx.pid, '--maxext', 3, '--steps', T(ctx, 12, 40), '--vary-alloc'], shards=2, label='hist_t%d_d%d_tr%d(vary-alloc)' % (t, d, tr))
 def c06(ctx, spec):
     hist_run(ctx, [(1, 1, 0), (1, 2, 0), (1, 3, 0), (1, 4, 0), (0, 1, 0), (0, 2, 0), (2, 2, 0), (2, 3, 0), (3, 1, 0), (3, 2, 0)], T(ctx, 10000, 200000))
 def c08(ctx, spec):
     hist_run(ctx, [(1, 1, 0), (1, 2, 0), (1, 3, 0), (1, 4, 0), (0, 1, 0), (0, 2, 0), (0, 3, 0), (2, 2, 0), (3, 2, 0)], T(ctx, 10000, 200000), zero_d=True)
+    sa_run(ctx, [(1, 1), (1, 2), (2, 1), (1, 3)], T(ctx, 4000, 80000))
     # blocks go back to the allocator INSTANCE that issued them: the same histories over unequal instances of allocators with every propagation trait
     cfgs = [(1, 2, tr) for tr in (0, 1, 2, 4, 7)]
     ctx.build(hist_builds(cfgs))
@@ -302,7 +309,7 @@ REGISTRY = {
     'C20': dict(fn=c20, level='exploration',
                 rule='three monitors. (1) silence: the valid workloads of C01, C03, C05, C07 and E-HIST run with assertions on; any library assertion is a violation; evidence lists the assertion sites evaluated (count per file:line) so that silence is not vacuous. '
                      '(2) configuration independence: a digest of every observable result (sizes, strides, element offsets through brackets and elements(), iterator differences, ==/!=/<, copies, sort, reverse, reextent, view assignment, swap) of random view programs is computed in three builds '
-                     '(assertions on; -DNDEBUG; -DBOOST_MULTI_ASSERT_DISABLE) and must be identical case by case. (3) death tests, one forked child each: views from random programs x an index just outside (or far outside) the extension in one chain position x {brackets, call, apply}; '
+                     '(assertions on; -DNDEBUG; -DBOOST_MULTI_ASSERT_DISABLE) and must be identical case by case. (3) death tests, one forked child each: views from random programs x an index just outside, far outside, or outside by a multiple of 2^32 (congruent to a valid index in 32-bit arithmetic) in one chain position x {brackets, call, apply}; valid indexing / slicing of a char view with more than 2^32 elements (lazily committed anonymous mapping) must NOT be stopped; '
                      'and 12 overload kinds of assignment/swap between views/arrays whose extents differ in the leading extent, an inner extent, or by permutation: the child must exit through a library assertion before any sanitizer report; survivors are violations. '
                      'distinct = hash of program / probe kind; non-trivial = >= 1 probe or >= 1 element observed',
                 assumptions=['broadcast (stride 0) views are exempt from the bounds assertion by the library and are not probed', 'death-test buffers are padded so that the verdict does not depend on ASan red zones']),
@@ -317,11 +324,11 @@ REGISTRY = {
                      'no-new-storage operations did not allocate, every survivor has extents == live elements in an outstanding block, is assignable and destructible, and the registry and ledger are empty afterwards. The enumeration is exhaustive for the scenario set in both tiers. '
                      'distinct = scenario (operation, prior state, shape); non-trivial = the scenario has >= 1 injection point',
                 assumptions=['single fault per execution (no double faults)', 'initializer-list arguments allocate while being built: not judged as allocation by the operation']),
-    'C04': dict(fn=c04, level='exploration', rule=HIST_RULE + 'C04 oracle: value model, disjoint storage, moves touch no element (special-member counters), moved-from sources empty and reusable. distinct = hash(op-kind sequence incl. prior-state class); non-trivial = >=3 steps incl. an assignment over existing state',
+    'C04': dict(fn=c04, level='exploration', rule=HIST_RULE + 'C04 oracle: value model, disjoint storage, moves touch no element (special-member counters), moved-from sources empty and reusable. distinct = hash(op-kind sequence incl. prior-state class); non-trivial = >=3 steps incl. an assignment over existing state' + ' The same oracles over histories of multi::static_array (harness/sa_hist.cpp: fixed extents; move construction allocates and moves the elements, the source keeps its extents; same-extent copy / move assignment and swap keep every block in place; rvalue begin()/end() are move iterators).',
                 assumptions=['0-D arrays are exercised by a separate reduced harness (their interface lacks most operations)', 'an empty iterator pair for assign/ctor(first,last) is excluded (the library evaluates *first on it)']),
     'C06': dict(fn=c06, level='exploration', rule=HIST_RULE + 'C06 oracle: model intersection of old/new extents on index tuples for reextent (fill value or value-initialised; unspecified for trivially default-constructible without fill; the rvalue overload only has to produce the extents), no-op reextent keeps data_elements(), clear/={}/reshape/assign/init-list contents. distinct/non-trivial as C04',
                 assumptions=['reextent() && discards contents by design (move-reextent): only extents and validity are required for it']),
-    'C08': dict(fn=c08, level='exploration', rule=HIST_RULE + 'C08 oracle: tracked<int> registry (construct over live / use or destroy of dead objects, cookie), ledger (unknown/size-mismatched deallocate), quiescent invariants after every step, nothing outstanding at the end; poison re-read proves sizing ctor / fill-less reextent did not write trivial elements. distinct/non-trivial as C04',
+    'C08': dict(fn=c08, level='exploration', rule=HIST_RULE + 'C08 oracle: tracked<int> registry (construct over live / use or destroy of dead objects, cookie), ledger (unknown/size-mismatched deallocate), quiescent invariants after every step, nothing outstanding at the end; poison re-read proves sizing ctor / fill-less reextent did not write trivial elements. distinct/non-trivial as C04' + ' The same oracles over histories of multi::static_array (harness/sa_hist.cpp: fixed extents; move construction allocates and moves the elements, the source keeps its extents; same-extent copy / move assignment and swap keep every block in place; rvalue begin()/end() are move iterators).',
                 assumptions=['construct/destroy routing (allocator_traits vs uninitialized_*) is not judged, only element lifetimes and blocks']),
     'C10': dict(fn=c10, level='exploration', rule=HIST_RULE + 'C10 oracle: ledger_alloc<T, POCCA, POCMA, POCS, always_equal> with instance ids over all 16 trait combinations and 3 instance ids; expected-allocator model per step (select_on_container_copy_construction hop counter); every block must be released through an allocator equal to its producer. distinct/non-trivial as C04',
                 assumptions=['swap of unequal allocators is only generated when POCS (precondition)', 'the allocator of decay()/unary plus results is not prescribed by the property: adopted as reported']),
